@@ -50,3 +50,29 @@ Proof.
   intros be H. split; [apply ex_all_wf; cbn [In] in H; intuition lia|].
   pose proof (ex_all_runs be H) as R. cbv zeta in R. tauto.
 Qed.
+
+(* ---- tie (a): the decision points the model uses at this place ARE the current C text (Core/CoreLeafLink.v;
+   Gen/LeafCore*.v is re-translated from /repo/src by gen/c2gallina.py on every run of this check) ---- *)
+From Ivv Require Import Base.CSem Gen.LeafCoreFd Gen.LeafCoreTask Gen.LeafCoreMain Gen.LeafCoreEpoll Gen.LeafCorePoll Core.CoreLeafLink.
+
+(* which bands a reported event mask makes ready (epoll and poll back ends), the kernel-interest update of the epoll
+   back end and the slot bookkeeping of the poll back end are built from the translated tests of the C functions *)
+Theorem C02_activate_is_the_code_epoll :
+  forall s k bits, 0 <= bits < 16 -> activate_with core_ep_in core_ep_out core_ep_err s k bits = Some (activate s k bits).
+Proof. exact activate_is_the_code_epoll. Qed.
+Print Assumptions C02_activate_is_the_code_epoll.
+
+Theorem C02_activate_is_the_code_poll :
+  forall s k bits, 0 <= bits < 16 -> activate_with core_po_in core_po_out core_po_err s k bits = Some (activate s k bits).
+Proof. exact activate_is_the_code_poll. Qed.
+Print Assumptions C02_activate_is_the_code_poll.
+
+Theorem C02_flush_op_is_the_code :
+  forall r w, flush_op_code r w = Some (flush_op_model r w).
+Proof. exact flush_op_is_the_code. Qed.
+Print Assumptions C02_flush_op_is_the_code.
+
+Theorem C02_poll_branch_is_the_code :
+  forall idx w, pn_branch_code idx w = Some (pn_branch_model idx w).
+Proof. exact pn_branch_is_the_code. Qed.
+Print Assumptions C02_poll_branch_is_the_code.
